@@ -153,12 +153,14 @@ package fs
 
 //@ func filesList.filesToRead$2 params(item, target)
 //@   tags C04,C09
+//@   safetytags C04,C09
 //@   requires item.size >= 0 && item.size < 1<<41 && item.rLBA >= 0 && item.rLBA + secs(item.size) < 1<<31
 //@   ensures result == (target < item.rLBA ? 1 : (target >= item.rLBA + secs(item.size) ? 0 - 1 : 0)) @def
 
 // The buffer must not be the image's own metadata buffer (cannot happen from outside the package).
 //@ func VirtualISO.read results(n, err)
 //@   tags C04,C09
+//@   safetytags C04,C09
 //@   any t int
 //@   requires wfISO(viso) && imgDef(viso) && off >= 0 && off < 1<<41 && buf.$arr != viso.fsBuf.$arr
 //@   let X = off < len(viso.fsBuf) ? len(viso.fsBuf) : off
@@ -194,6 +196,7 @@ package fs
 
 //@ func VirtualISO.Seek results(pos, err)
 //@   tags C04,C09
+//@   safetytags C04,C09
 //@   requires viso != nil && 0 <= viso.offset && viso.offset <= viso.totalSize && viso.totalSize >= 0 && viso.totalSize < 1<<41
 //@   requires -(1<<62) < offset && offset < 1<<62
 //@   let target = whence == 0 ? offset : (whence == 1 ? viso.offset + offset : viso.totalSize + offset)
@@ -205,6 +208,7 @@ package fs
 
 //@ func VirtualISO.Read results(n, err)
 //@   tags C04,C09
+//@   safetytags C04,C09
 //@   any t int
 //@   requires wfISO(viso) && imgDef(viso) && viso.offset <= viso.totalSize && p.$arr != viso.fsBuf.$arr
 //@   modifies elems(p), elems(viso.files).file, fopen, fpos, iofaults, viso.offset
@@ -218,6 +222,7 @@ package fs
 
 //@ func VirtualISO.ReadAt results(n, err)
 //@   tags C04,C09
+//@   safetytags C04,C09
 //@   any t int
 //@   requires wfISO(viso) && imgDef(viso) && off >= 0 && off < 1<<41 && p.$arr != viso.fsBuf.$arr
 //@   modifies elems(p), elems(viso.files).file, fopen, fpos, iofaults
